@@ -70,9 +70,15 @@ func TestVerifDriver(t *testing.T) {
 			rng.Read(b)
 			do("b1t6.Encode", M{"bytes": vInts(b)})
 		}
-		for k := 0; k < n; k++ {
-			// byte strings of every length 0..40
-			l := k % 41
+		var forLen func(l, k int)
+		// every operation at lengths where an implementation working in blocks may change gear (81, 243, 256 trits / trytes /
+		// bytes and their neighbours), each with the valid input and every kind of fault
+		for _, l := range []int{13, 14, 27, 40, 41, 42, 43, 81, 82, 85, 86, 121, 122, 123, 127, 128, 129, 243, 244, 255, 256, 257, 364, 365, 729, 1000, 1458, 2047, 2048, 2049, 4099} {
+			for k := 0; k < 20; k += 1 + l/200 {
+				defer func(l, k int) { forLen(l, k) }(l, k)
+			}
+		}
+		forLen = func(l, k int) {
 			b := make([]byte, l)
 			rng.Read(b)
 			if k%7 == 0 {
@@ -122,6 +128,9 @@ func TestVerifDriver(t *testing.T) {
 				}
 			}
 			do("b1t6.DecodeTrytes", M{"trytes": vInts(ty)})
+		}
+		for k := 0; k < n; k++ {
+			forLen(k%41, k) // byte strings of every length 0..40
 		}
 	})
 }
